@@ -181,6 +181,7 @@ var c15Queries = []c15Query{
 	// agreement-only (splitting not specified for these)
 	{s: " text/html"}, {s: "text/html "}, {s: "text/html ; a=b"}, {s: "text/html;"}, {s: "text/html;a"}, {s: "text/html;a="},
 	{s: "text/html; a=b; a=c"}, {s: "text/html;=b"}, {s: "xx"}, {s: ""}, {s: ";"}, {s: "a;b"}, {s: "text/html;a = b"}, {s: "text/html  x"},
+	{s: "text/html; charset=\"utf-8\""}, {s: "text/css;x=\"a b\""}, {s: "text/html; a=\"q;r\"; b=c"}, {s: "application/json;profile=\"http://x/y\""}, {s: "text/x-foo; q=\"\""},
 	{s: "text / html"}, {s: "text/html;a=b;"}, {s: "text/html;;a=b"}, {s: "t"}, {s: "te"}, {s: "tex"}, {s: "a/b;c=d"}, {s: "ab;c=d"},
 }
 
@@ -267,6 +268,46 @@ func c15QueryAll(run *core.Run, m *minify.M, model *c15Model, log *c15Log, hist 
 			if calls[0].input != payload || out.String() != fmt.Sprintf("<%d>%s", calls[0].id, payload) {
 				report(q, "stub did not receive the payload / output not written through")
 				continue
+			}
+		}
+		// the convenience entry points resolve and call exactly like Minify, for an empty body as for any other
+		for _, body := range []string{"", payload} {
+			for _, entry := range []string{"Bytes", "String", "Reader", "Writer"} {
+				var eerr error
+				var eout string
+				switch entry {
+				case "Bytes":
+					var b []byte
+					b, eerr = m.Bytes(q.s, []byte(body))
+					eout = string(b)
+				case "String":
+					eout, eerr = m.String(q.s, body)
+				case "Reader":
+					var b []byte
+					b, eerr = io.ReadAll(m.Reader(q.s, strings.NewReader(body)))
+					eout = string(b)
+				default:
+					var b bytes.Buffer
+					w := m.Writer(q.s, &b)
+					_, werr := w.Write([]byte(body))
+					eerr = w.Close()
+					if eerr == nil {
+						eerr = werr
+					}
+					eout = b.String()
+				}
+				ecalls := log.take()
+				if fn == nil {
+					if !errors.Is(eerr, minify.ErrNotExist) || len(ecalls) != 0 {
+						report(q, fmt.Sprintf("%s(%q): Match finds no minifier but the call returned err=%v and ran %d stubs", entry, body, eerr, len(ecalls)))
+						break
+					}
+					continue
+				}
+				if eerr != nil || len(ecalls) != 1 || ecalls[0].id != calls[0].id || !paramsEq(ecalls[0].params, mparams) || ecalls[0].input != body || eout != fmt.Sprintf("<%d>%s", calls[0].id, body) {
+					report(q, fmt.Sprintf("%s(%q): err=%v calls=%v output %q; Minify used stub %d with params %v", entry, body, eerr, ecalls, eout, calls[0].id, mparams))
+					break
+				}
 			}
 		}
 		if q.wf {
